@@ -73,6 +73,7 @@ pub struct K {
     pub own_rx: Set<c_int>,             // receive-end descriptors THIS process still holds open
     pub consumed: Set<c_int>,           // descriptors taken out of their owning OsIpcReceiver (consume_fd): its Drop closes nothing
     pub errno: c_int,                   // the thread's errno: set by a FAILING system call, left alone (stale) by a successful one
+    pub rx_modes: Seq<(c_int, int)>,    // every first-packet receive (UnixCmsg::recv): descriptor and blocking mode (0 blocking, 1 non-blocking, 2+ms timed)
 }
 
 pub open spec fn spec_frag(s: nat) -> nat { (s - 32) as nat }
